@@ -1,6 +1,7 @@
 import WP.Model.Hist
 import WP.Model.Access
 import WP.Model.Position
+import WP.Model.Admission
 /-
   Line-protocol driver: one operation per line on stdin, one canonical result line on stdout.
   `ok <fields…>` | `err <ErrorName>` | `bad-op`.  See DESIGN.md Appendix B.
@@ -15,6 +16,17 @@ def showR (r : R String) : String :=
 def b01 (s : String) : Option Bool := if s == "1" then some true else if s == "0" then some false else none
 
 def natArgs (l : List String) : Option (List Nat) := l.mapM String.toNat?
+
+def hexVal (c : Char) : Option Nat :=
+  if '0' ≤ c ∧ c ≤ '9' then some (c.toNat - '0'.toNat)
+  else if 'a' ≤ c ∧ c ≤ 'f' then some (c.toNat - 'a'.toNat + 10) else none
+
+def parseHex : List Char → Option (List Nat)
+  | [] => some []
+  | [_] => none
+  | a :: b :: rest => do
+    let x ← hexVal a; let y ← hexVal b; let r ← parseHex rest
+    pure ((x * 16 + y) :: r)
 
 def showDelta (r : R AmountDelta) : String :=
   match r with
@@ -65,6 +77,25 @@ def stepPure (toks : List String) : Option String :=
   | ["snap", lo, hi, ts, price] => do
       let lo ← lo.toInt?; let hi ← hi.toInt?; let ts ← ts.toNat?; let price ← price.toNat?
       pure (showR ((resolveOneSided lo hi ts price).map fun (a, b) => s!"{a} {b}"))
+  | ["mint", prog, native, freeze, badge, hex] => do
+      let prog ← b01 prog; let native ← b01 native; let freeze ← b01 freeze; let badge ← b01 badge
+      let tlv ← (if hex == "-" then some [] else parseHex hex.toList)
+      pure (match isSupportedTokenMint prog native freeze badge tlv with
+        | .ok true => "ok 1" | .ok false => "ok 0" | .error e => "err " ++ e)
+  | ["badge", o, c, m] => do
+      let o ← b01 o; let c ← b01 c; let m ← b01 m
+      pure (if isTokenBadgeInitialized o c m then "ok 1" else "ok 0")
+  | ["setfee", kind, r] => do
+      let r ← r.toNat?
+      pure (showR ((if kind == "p" || kind == "c" then updateProtocolFeeRate r else updateFeeRate r).map toString))
+  | ["afc", ts, f, dp, rf, cf, mv, gs, th] => do
+      let ts ← ts.toNat?; let f ← f.toNat?; let dp ← dp.toNat?; let rf ← rf.toNat?; let cf ← cf.toNat?
+      let mv ← mv.toNat?; let gs ← gs.toNat?; let th ← th.toNat?
+      pure (if validateConstants ts { filterPeriod := f, decayPeriod := dp, reductionFactor := rf, controlFactor := cf, maxVolAcc := mv,
+                                       groupSize := gs, majorSwapThresholdTicks := th } then "ok 1" else "ok 0")
+  | ["initpool", ma, mb, price, ts, fr, pr] => do
+      let ma ← ma.toNat?; let mb ← mb.toNat?; let price ← price.toNat?; let ts ← ts.toNat?; let fr ← fr.toNat?; let pr ← pr.toNat?
+      pure (showR ((initializePoolChecks ma mb price ts fr pr).map fun p => s!"{p.feeRate} {p.protoRate} {p.price} {p.tick} {p.ts}"))
   | ["mdr", n0, n1, d, up] => do
       let n0 ← n0.toNat?; let n1 ← n1.toNat?; let d ← d.toNat?; let up ← b01 up
       pure (showR ((checkedMulDivRoundUpIf n0 n1 d up).map toString))
